@@ -443,6 +443,13 @@ func (g *c07Gen) stmts(depth int, vis []string) []*mj.Node {
 			} else {
 				out = append(out, g.capture(vis)...)
 			}
+		case k == 15 && g.n(0, 1, "globalAddedMeanwhile") == 0:
+			// Go code the template calls adds a global to the Set: names resolve against the Set as it is when they
+			// are looked up (after the variables, before the built-ins)
+			gname := []string{"lateg", "lower", "a", "gv"}[g.n(0, 3, "lateGlobal")]
+			val := g.id("LATE")
+			out = append(out, mj.Print(mj.Call("addGlobalNow", mj.Str(gname), mj.Str(val))), mj.Text("("+gname+" now="), mj.Print(mj.Var(gname)), mj.Text(")"))
+			g.labels["global-added-while-the-template-runs"] = true
 		case k == 14 && g.n(0, 1, "swallowed") == 0:
 			// isset() answers false when looking fails - here: a template executed for the answer fails half-way,
 			// inside constructs that rebind '.', open scopes or hold yield content. Nothing of that stays behind.
